@@ -100,6 +100,13 @@ def judge(sh, seq, argv_names, mode, r, case, files_by_name, fmt="humanized"):
         else:
             files = oracle.parse_humanized(r.stdout)
     except (oracle.ReportParseError, ValueError, KeyError) as e:
+        if "fatal" in seq and mode != "dir":
+            # the wording of a fatal report is not fixed by the property: the file must be named and the status non-zero
+            k = seq.index("fatal")
+            sh.count("c04.fatal_named_and_nonzero")
+            if r.rc in (0, None) or argv_names[k] not in r.stdout + r.stderr:
+                sh.violation("fatal_not_reported", (str(r.rc),), case, detail)
+            return
         detail["stdout_tail"] = r.stdout[-400:]
         sh.violation("unparsable_output", (type(e).__name__,), case, detail)
         return
@@ -157,9 +164,10 @@ def judge(sh, seq, argv_names, mode, r, case, files_by_name, fmt="humanized"):
                     sh.violation("status_differs_from_class", (cls,), case, detail)
         # (3) exit status 0 iff every file OK
         sh.count("c04.exit_status_iff_all_ok")
-        want_rc = 1 if any(c == "error" for c in seq) else 0
-        if r.rc != want_rc:
-            detail["expected_rc"] = want_rc
+        want_zero = not any(c == "error" for c in seq)
+        # the property fixes zero / non-zero only (which non-zero value is the tool's business)
+        if (r.rc == 0) != want_zero or r.rc is None or r.rc < 0:
+            detail["expected"] = "0" if want_zero else "non-zero"
             sh.violation("exit_status", (str(r.rc), "notice" if "notice" in seq else "", "last=" + (seq[-1] if seq else "-")), case, detail)
 
 
@@ -233,6 +241,30 @@ def run_shard(spec):
                 judge(sh, [], [], "dir", run, {"mode": "cli", "argv": ["--no-colors", "."], "files": {"README.md": "x\n", "a.cc": "int x;\n"},
                                                "classes": []}, {})
             shutil.rmtree(d, ignore_errors=True)
+        # independence from the number of files: large runs around the 8-bit width of an exit status
+        counts = [c for i, c in enumerate([255, 256, 257, 512, 128, 300]) if i % spec["nshards"] == spec["shard"]]
+        if spec["tier"] == "quick":
+            counts = [c for c in counts if c <= 257]
+        for n in counts:
+            for cls in ("error", "clean"):
+                d = os.path.join(tmp, "many_%d_%s" % (n, cls))
+                os.mkdir(d)
+                kind, src = reps[cls][0]
+                if kind != "c":
+                    kind, src = [x for x in reps[cls] if x[0] == "c"][0]
+                for i in range(n):
+                    with open(os.path.join(d, "m%03d.c" % i), "w") as f:
+                        f.write(src)
+                run = cliobs.run_cli(["--no-colors", "."], cwd=d, timeout=600, trace=False)
+                sh.case("many\0%d\0%s" % (n, cls))
+                sh.tally("runs", "many_files")
+                sh.count("c04.exit_status_iff_all_ok")
+                nlines = sum(1 for l in run.stdout.split("\n") if l.endswith(": OK!") or l.endswith(": Error!"))
+                bad = (run.rc == 0) != (cls == "clean") or run.rc is None or run.traceback() or nlines != n
+                if bad:
+                    sh.violation("exit_status_many_files", (cls, str(n), str(run.rc)), {"mode": "many", "n": n, "cls": cls, "src": src},
+                                 {"n_files": n, "class": cls, "rc": run.rc, "verdict_lines": nlines})
+                shutil.rmtree(d, ignore_errors=True)
         sh.sample({"sequence": ["clean", "error", "notice"], "argv": ["--no-colors", "f00_clean.c", "f01_error.c", "f02_notice.c"]}, cap=1)
     finally:
         shutil.rmtree(tmp, ignore_errors=True)
@@ -242,6 +274,15 @@ def run_shard(spec):
 def replay(case, sh):
     tmp = tempfile.mkdtemp(prefix="nv_c04r_")
     try:
+        if case.get("mode") == "many":
+            for i in range(case["n"]):
+                with open(os.path.join(tmp, "m%03d.c" % i), "w") as f:
+                    f.write(case["src"])
+            run = cliobs.run_cli(["--no-colors", "."], cwd=tmp, timeout=600, trace=False)
+            sh.evaluations += 1
+            if (run.rc == 0) != (case["cls"] == "clean"):
+                sh.violation("exit_status_many_files", ("replay",), case, {"rc": run.rc})
+            return
         for n, t in case["files"].items():
             with open(os.path.join(tmp, n), "w") as f:
                 f.write(t)
